@@ -258,11 +258,13 @@ C20_FAMILIES = [("sid_strings", 600), ("sid_forms", 120), ("query", 400), ("path
 C20_ORACLES = [("C01", 500), ("C02", 300), ("C03", 300), ("C04", 300), ("C05", 200), ("C06", 200), ("C07", 300), ("C08", 60), ("C11", 6)]
 
 
-def _alt_conf(seed, idx):
+def _alt_conf(seed, idx, unmodelled=False):
     rng = random.Random("C20/%s/%d" % (seed, idx))
-    spec = gen_conf.make_spec(rng, idx)
-    d = gen_conf.write_package(spec, os.path.join(_stage.scratch_base(), "altconf_%s_%d" % (seed, idx)))
+    spec = gen_conf.make_spec(rng, idx, unmodelled=unmodelled)
+    d = gen_conf.write_package(spec, os.path.join(_stage.scratch_base(), "altconf_%s_%d%s" % (seed, idx, "u" if unmodelled else "")))
     st = _stage.stage(conf_src=d, tag="alt")
+    if unmodelled:
+        st["env"] = dict(st["env"], SPIL_VERIF_ALLOW_UNMODELLED="1")
     c, err = core.extract(st)
     return spec, st, c, err
 
@@ -312,7 +314,9 @@ def _alt_lean(confs):
     return [l.split()[1] for l in lines if l.startswith("theorem ")]
 
 
-def oracle_C20(run, n):
+def oracle_C20(run, n, fams=None, oracles=None, tag="C20", kernel=True):
+    fams = C20_FAMILIES if fams is None else fams
+    oracles = C20_ORACLES if oracles is None else oracles
     fails = []
     stats = collections.Counter()
     confs, envs, specs = [], [], []
@@ -357,17 +361,18 @@ def oracle_C20(run, n):
         confs.append(c); envs.append(st); specs.append(idx)
     # kernel obligations for the first two generated configurations (all of them in the thorough tier)
     k = len(confs) if run.tier == "thorough" else min(2, len(confs))
-    thms = _alt_lean(confs[:k])
-    ok, out = core.lake_build(["Spil.Generated.AltWF"])
-    run.cov["obligations"] = run.cov.get("obligations", 0) + len(thms)
-    if ok:
-        run.cov["discharged"] = run.cov.get("discharged", 0) + len(thms)
-        stats["kernel_wf_obligations"] = len(thms)
-    else:
-        fails.append(("C20", {"alt": specs[:k], "obligation": "AltWF"}, ["kernel obligations of the generated configurations do not check: " + out[-800:]]))
+    if kernel:
+        thms = _alt_lean(confs[:k])
+        ok, out = core.lake_build(["Spil.Generated.AltWF"])
+        run.cov["obligations"] = run.cov.get("obligations", 0) + len(thms)
+        if ok:
+            run.cov["discharged"] = run.cov.get("discharged", 0) + len(thms)
+            stats["kernel_wf_obligations"] = len(thms)
+        else:
+            fails.append(("C20", {"alt": specs[:k], "obligation": "AltWF"}, ["kernel obligations of the generated configurations do not check: " + out[-800:]]))
     for idx, c, st in zip(specs, confs, envs):
         scale = 1.0 if run.tier == "quick" else 6.0
-        for fam, nn in C20_FAMILIES:
+        for fam, nn in fams:
             rng = random.Random("C20/%s/%d/%s" % (run.seed, idx, fam))
             v = gen.Vocab(c, rng)
             ops = _gen_ops(fam, v, int(nn * scale), c)
@@ -384,7 +389,7 @@ def oracle_C20(run, n):
                     break
                 run.nontrivial.add(core.digest([idx, op]))
             run.cov["evaluations"] += len(ops)
-        for name, nn in C20_ORACLES:
+        for name, nn in oracles:
             rng = random.Random("C20/%s/%d/o/%s" % (run.seed, idx, name))
             v = gen.Vocab(c, rng)
             ops = [o for o in _gen_oracle_ops(name, v, int(nn * scale), c) if "hamlet" not in json.dumps(o["input"])]
@@ -401,7 +406,7 @@ def oracle_C20(run, n):
                 run.nontrivial.add(core.digest([idx, op["input"]]))
             run.cov["evaluations"] += len(ops)
         stats["configurations"] += 1
-    run.cov["oracles"]["C20"] = dict(stats)
+    run.cov["oracles"][tag] = dict(stats)
     if confs:
         run.cov["samples"].append({"generated_configuration": specs[0],
                                    "types": [l for l, _ in confs[0]["conf"]["sid"]["templates"]],
@@ -412,7 +417,8 @@ def oracle_C20(run, n):
 def replay_C20(d, inp):
     """re-run the recorded operation / oracle input under the regenerated configuration"""
     seed = inp.get("seed", os.environ.get("VERIF_SEED", "1"))
-    spec, st, c, err = _alt_conf(int(seed), int(inp["alt"]) if not isinstance(inp["alt"], list) else int(inp["alt"][0]))
+    spec, st, c, err = _alt_conf(int(seed), int(inp["alt"]) if not isinstance(inp["alt"], list) else int(inp["alt"][0]),
+                                 unmodelled=bool(inp.get("unmodelled")))
     if c is None:
         return ["configuration could not be regenerated: %s" % err]
     if "op" in inp:
@@ -439,6 +445,57 @@ REPLAY["C20"] = replay_C20
 
 
 SPECIAL["C20"] = oracle_C20
+
+
+def oracle_ALTP(run, n):
+    """the PATH properties under generated configurations (the first `n` of C20's: every optional feature of a
+    path configuration switched on in the first one — value synonyms, partial mappings, path defaults,
+    template-only keys, a third configuration with its own words — and off in the second): model against
+    implementation on the paths family, and the C05 / C06 oracles.  Failures replay as C20's do."""
+    fails = oracle_C20(run, n, fams=[("paths", 120)], oracles=[("C05", 250), ("C06", 300)], tag="ALTP", kernel=False)
+    return fails + _unmodelled_paths(run)
+
+
+def _unmodelled_paths(run, idx=0):
+    """ORACLE ONLY (no model, no theorem): the C05 / C06 statements evaluated on the real code under a generated
+    configuration that uses the two path features the model does not have — extra path keys computed from a sid
+    key (sidkeys_to_extrakeys / extrakeys_to_sidkeys) and a value mapping for one type only (path_mapping[(key, type)])"""
+    fails = []
+    stats = collections.Counter()
+    spec, st, c, err = _alt_conf(run.seed, idx, unmodelled=True)
+    if c is None:
+        run.notes.append("configuration with unmodelled path features could not be read: %s" % (err or "")[-300:])
+        return fails
+    stats["unmodelled_features"] = len(c.get("unmodelled") or [])
+    for name, nn in [("C05", 250), ("C06", 300)]:
+        rng = random.Random("C20/%s/%d/u/%s" % (run.seed, idx, name))
+        v = gen.Vocab(c, rng)
+        g = oracle_inputs.GENERATORS[name]
+        import inspect
+        if len(inspect.signature(g).parameters) == 3:
+            # generators that ask the model for paths: ask the implementation instead (no model of these features)
+            ops = g(v, nn, lambda ops: core.run_impl(ops, st=st))
+        else:
+            ops = g(v, nn)
+        ops = [o for o in ops if "hamlet" not in json.dumps(o["input"])]
+        res = core.run_impl(ops, st=st)
+        for op, r in zip(ops, res):
+            stats["oracle_inputs"] += 1
+            f = r.get("ok") if "ok" in r else ["oracle crashed: %s" % r.get("msg", r)]
+            if isinstance(f, dict):
+                f = f["failures"]
+            if f:
+                stats["oracle_failures"] += 1
+                fails.append(("C20", {"seed": run.seed, "alt": idx, "unmodelled": True, "oracle": name, "input": op["input"]}, f))
+                break
+            run.nontrivial.add(core.digest(["u", idx, op["input"]]))
+        run.cov["evaluations"] += len(ops)
+    run.cov["oracles"]["ALTP_unmodelled_features(oracle only)"] = dict(stats)
+    return fails
+
+
+SPECIAL["ALTP"] = oracle_ALTP
+REPLAY["ALTP"] = lambda d, inp: replay_C20(d, inp)
 
 
 # ------------------------------------------------------------------------------------------ C19 (loader)
